@@ -15,7 +15,7 @@ import os
 import random
 from typing import Any
 
-from harness import common, diskproj, pygen, trees
+from harness import common, diskproj, pygen
 from harness.common import Ctx, Finding, SearchResult, Stream, exc_enum, hx
 
 PROP = 'C15'
@@ -185,14 +185,14 @@ def case_tree(desc: dict[str, Any], t: Any) -> tuple[dict[str, Any], list[str], 
 # generators
 
 
-TREE_NAMES = ['file_input', 'block', 'function_def', 'parameters', 'a', '__empty__', 'typed_var', 'elif_clauses']
+TREE_NAMES = ['file_input', 'block', 'function_def', 'parameters', 'a', 'ab', 'a_b', '__empty__', 'typed_var', 'elif_clauses', 'name']
 TOKEN_TYPES = ['NAME', 'STRING', 'DEC_NUMBER', '__ANON_0', '__ANON_12', 'COLON', 'PLUS', 'COMMENT', 'name']
 VALUES = ['', 'x', 'self', "'s'", '"d\\n"', 'あい', 'a b', '->', '\t', 'a\nb', '\\', '\U0001F600', '\x7f', '0', 'None', ' ']
 
 
 def gen_pos(rng: random.Random, mode: str) -> Any:
 	if mode == 'int':
-		return rng.randint(1, 300)
+		return rng.choice([1, 1, 2, rng.randint(1, 300), rng.randint(1, 300), 2 ** 31, 10 ** 12])
 	if mode == 'zero':
 		return 0
 	if mode == 'none':
@@ -365,9 +365,9 @@ def gen_stored(rng: random.Random, depth: int, hist: dict[str, int]) -> Any:
 def gen_sources(ctx: Ctx, rng: random.Random, n_generated: int, n_real: int) -> list[tuple[str, str]]:
 	"""(label, source) of real modules and generated programs."""
 	out: list[tuple[str, str]] = []
-	for f in trees.real_source_files(ctx.thorough, rng, n_real):
-		with open(f, encoding='utf-8') as fh:
-			out.append((os.path.relpath(f, common.REPO), fh.read()))
+	for f in pygen.real_files(ctx.thorough, rng, n_real):
+		with open(os.path.join(common.REPO, f), encoding='utf-8', newline='') as fh:
+			out.append((f, fh.read()))
 	for i in range(n_generated):
 		src, d = pygen.gen_module(rng)
 		out.append((f"generated#{i}:{d['unit']}", src))
@@ -514,6 +514,15 @@ def search_views(ctx: Ctx) -> SearchResult:
 		d = first_view_diff(fresh, restored)
 		if d:
 			res.findings.append(Finding(key=f"view-diff:{d.split(' ')[0]}", what=f'{label}: {d}', replay={'tree': label, 'sexp': lark_sexp(t)[:20000]}))
+		elif res.cases % 3 == 0:
+			# history: a restored tree stored and restored again (a warm cache rewritten by a later run) is still the same tree
+			try:
+				again = view_tuple(store_load(store_load(t).source))
+				d2 = first_view_diff(fresh, again)
+			except Exception as e:  # noqa: BLE001
+				d2 = f'raises {exc_enum(e)}'
+			if d2:
+				res.findings.append(Finding(key=f"view-diff-second-generation:{d2.split(' ')[0]}", what=f'{label}: stored twice: {d2}', replay={'tree': label, 'sexp': lark_sexp(t)[:20000]}))
 		kind = label.split('#')[0] if '#' in label else 'real'
 		res.histogram[kind] = res.histogram.get(kind, 0) + 1
 		if len(res.samples) < 2:
@@ -548,25 +557,31 @@ def search_nodes(ctx: Ctx) -> SearchResult:
 		mp = f'gen.m{i}'
 		proj.write(mp, src)
 		modules.append((mp, f"generated#{i}:{d['unit']}"))
-	for f in trees.real_source_files(ctx.thorough, rng, ctx.scale(3, 40)):
-		rel = os.path.relpath(f, common.REPO)
+	for rel in pygen.real_files(ctx.thorough, rng, ctx.scale(4, 60)):
 		modules.append((rel[:-3].replace(os.sep, '.'), rel))
 	seen = set()
+	exercised = 0
 	for mp, label in modules:
 		try:
 			ep1 = proj.entrypoint(mp)
 		except Exception:  # noqa: BLE001 - outside the grammar
 			continue
 		res.cases += 1
-		files_before = proj.tree_cache_files()
-		ep2 = proj.entrypoint(mp)
-		root1 = diskproj.nodes_of(ep1)._Nodes__entries.by(ep1.full_path)
-		root2 = diskproj.nodes_of(ep2)._Nodes__entries.by(ep2.full_path)
-		if diskproj.is_restored(root1) or not diskproj.is_restored(root2) or proj.tree_cache_files() != files_before:
-			if root1.source._meta is None or root1.source.meta.empty:
-				continue  # module without any token: the root meta cannot tell fresh from restored
-			raise common.InfraError(f'cache path not exercised for {label}: first restored={diskproj.is_restored(root1)} second restored={diskproj.is_restored(root2)}')
+		try:
+			ep2 = proj.entrypoint(mp)
+			ep3 = proj.entrypoint(mp) if res.cases % 4 == 0 else None  # a third run on the warm cache
+			root1 = diskproj.nodes_of(ep1)._Nodes__entries.by(ep1.full_path)
+			root2 = diskproj.nodes_of(ep2)._Nodes__entries.by(ep2.full_path)
+		except Exception as e:  # noqa: BLE001 - the fresh parse succeeded, so the stored form must load
+			res.findings.append(Finding(key=f'restore-raises:{exc_enum(e)}', what=f'{label}: loading the cached tree raises {exc_enum(e)}', replay={'module': label}))
+			continue
+		if diskproj.is_restored(root1) or not diskproj.is_restored(root2):
+			res.histogram['cache-not-exercised'] = res.histogram.get('cache-not-exercised', 0) + 1
+		else:
+			exercised += 1
 		f1, f2 = node_facts(ep1), node_facts(ep2)
+		if ep3 is not None and node_facts(ep3) != f2:
+			res.findings.append(Finding(key='nodes-diff:second-restore', what=f'{label}: two loads of the same cache file give different nodes', replay={'module': label}))
 		seen.add(hash(tuple(f1.items())))
 		if list(f1.keys()) != list(f2.keys()):
 			res.findings.append(Finding(key='nodes-diff:paths', what=f'{label}: path lists differ ({len(f1)} vs {len(f2)})', replay={'module': label, 'source': open(os.path.join(proj.root if mp.startswith('gen.') else common.REPO, mp.replace('.', os.sep) + '.py'), encoding='utf-8').read()[:20000]}))
@@ -583,6 +598,8 @@ def search_nodes(ctx: Ctx) -> SearchResult:
 		if len(res.samples) < 2:
 			res.samples.append({'module': label, 'nodes': len(f1), 'cache_files': len(proj.tree_cache_files())})
 	res.distinct = len(seen)
+	if not exercised and not res.findings:
+		raise common.InfraError('no module was restored from the on-disk cache: the search did not exercise the cache path')
 	return res
 
 
@@ -594,6 +611,8 @@ STATEMENTS = {
 	'view_rt_direct': 'the same without the JSON step (loads(dumps(t)), tuples kept)',
 	'dumps_ok_iff': 'dumps(t) succeeds exactly when every source_map in the view of t can be read (fails only with AttributeError on a non-empty Meta lacking attributes — never produced by lark)',
 	'store_total': 'for trees whose non-empty metas carry all four attributes (all lark output) store→load always succeeds and preserves the view',
+	'store_total_partial': 'the guard is exact: store→load succeeds (and preserves the view) precisely on the well-formed trees',
+	'store_total_counterexample': '_counterexample of the unguarded statement: a non-empty Meta lacking an attribute cannot be stored (AttributeError); witness corpus/C15/incomplete-meta.json — outside what lark builds',
 	'derived': 'any function of the view gives equal results on the restored and the fresh tree',
 	'dumps_error': 'when dumps fails it fails with AttributeError',
 	'derived_nodes': 'instances of derived: the entry cache (all paths in order), Nodes.source_map per path, ErrorRender quotation per path',
